@@ -108,10 +108,18 @@ func walkValue(sb *strings.Builder, f reflect.Value, depth int) {
 		k := f.Len()
 		fmt.Fprintf(sb, "chan%d[", k)
 		for j := 0; j < k; j++ {
-			x, _ := f.Recv()
+			// never block: on a tree where a background writer is still using the channel at a
+			// cycle boundary the rotation may come up short; that shows in the key, not as a hang
+			x, ok := f.TryRecv()
+			if !ok {
+				sb.WriteString("busy")
+				break
+			}
 			walkValue(sb, x, depth+1)
 			sb.WriteByte('|')
-			f.Send(x)
+			if !f.TrySend(x) {
+				sb.WriteString("full")
+			}
 		}
 		sb.WriteByte(']')
 	case reflect.Interface, reflect.Ptr, reflect.Map:
@@ -346,6 +354,7 @@ func explore(c *enum.Ctx, cfg config, work string, shard int, big bool, minDepth
 		for _, h := range frontier {
 			for _, cy := range alpha {
 				nh := history{Cfg: cfg, Cycles: append(append([]cycle{}, h.Cycles...), cy)}
+				c.Doing(shard, nh)
 				c.Eval()
 				execs++
 				key, ok, t, failed := r.run(nh, true)
